@@ -76,6 +76,11 @@ unsigned fmc_oracle_mask(void);
 // watch log: exact history of atomic operations on one 8-byte granule
 typedef struct { int thread, kind, size, off; uint64_t oldv, newv; } fmc_wev_t;  // kind: L load S store X xchg A add/sub C cas-ok c cas-fail N note(off=code,oldv=value)
 #define FMC_MAXWLOG 256
+// focus ranges: with the engine option -focus, a running thread is offered for pre-emption only
+// immediately before its operations on a declared range (the object under test); switches at
+// blocking/yielding operations are unaffected. A sound restriction of the schedule space that buys
+// a higher pre-emption bound on one object. Without -focus the declaration has no effect.
+void fmc_focus(void* p, unsigned long n);
 void fmc_watch(void* addr);
 void fmc_watch_note(int code, uint64_t v);
 int fmc_watch_n(void);
